@@ -9,7 +9,7 @@ out = {}
 for f in sorted(os.listdir(os.path.join(root, 'skoolkit'))):
     if f.endswith('.py'):
         tree = ast.parse(open(os.path.join(root, 'skoolkit', f)).read())
-        out[f[:-3]] = {q: canon.local_names(fn) for q, fn in canon.outer_functions(tree)}
+        out[f[:-3]] = {q: {'locals': canon.local_names(fn), 'exprs': sorted(canon.shapes(fn))} for q, fn in canon.outer_functions(tree)}
 p = os.path.join(os.path.dirname(os.path.dirname(os.path.abspath(__file__))), 'sa', 'core', 'canon_names.json')
 json.dump(out, open(p, 'w'), indent=0, sort_keys=True)
 print('%d modules, %d functions' % (len(out), sum(len(v) for v in out.values())))
